@@ -120,7 +120,7 @@ where
         2 => rng.usize_in(2, 6),
         _ => rng.usize_in(0, max_len),
     };
-    let mut enc: Enc<M, S> = RangeEncoder::new();
+    let mut enc: Enc<M, S> = if rng.bool() { RangeEncoder::new() } else { Default::default() };
     let reuse_after_clear = rng.chance(1, 8);
     if reuse_after_clear {
         // documented: clear() "resets the coder to the same state as new()". Encode a steered
@@ -141,9 +141,26 @@ where
     let mut msg = Msg::<M> { zoo: Vec::new(), syms: Vec::new() };
     let mut edges = Edges::default();
     let cfg = DriveCfg { n, steer_16: if rng.bool() { 10 } else { 2 }, max_n_symbols: if run.small { 8 } else { 48 }, end_near_16: 2 };
-    if !drive(run, rng, &mut enc, &mut msg, Some(&mut reference), &mut edges, &cfg, |_, _, _, _, _| true) {
+    // looking at the data while encoding (temporary view / temporary decoder) is part of
+    // ordinary use and must not change the words that are finally produced
+    let peek_16: u64 = if rng.chance(1, 4) { 3 } else { 0 };
+    let mut peeks = 0u64;
+    if !drive(run, rng, &mut enc, &mut msg, Some(&mut reference), &mut edges, &cfg, |_, rng, e, _, _| {
+        if peek_16 > 0 && rng.below(16) < peek_16 {
+            peeks += 1;
+            if rng.bool() {
+                let g = e.get_compressed();
+                let _ = g.len();
+            } else {
+                let d = e.decoder();
+                let _ = d.maybe_exhausted();
+            }
+        }
+        true
+    }) {
         return;
     }
+    run.count("peeks_while_encoding", peeks);
     edges.publish(run);
     if edges.steps_inverted > 0 {
         run.nontrivial();
@@ -178,7 +195,7 @@ where
     run.count("reference_carries", reference.carries);
 
     // ---- decode through several constructions
-    let which = rng.below(5);
+    let which = rng.below(8);
     let ok = match which {
         0 => {
             let mut d = RangeDecoder::<M::W, S, _>::from_compressed(words.clone()).unwrap_infallible();
@@ -217,6 +234,23 @@ where
             let mut e2 = enc_twin.clone();
             let mut d = e2.decoder();
             decode_check(run, &mut d, &msg, 0, "RangeEncoder::decoder()", "C02") && check_exhausted(run, d.maybe_exhausted(), &msg, &wu)
+        }
+        5 => {
+            // for_compressed over a borrowed Vec + the trait form of maybe_exhausted
+            let mut d = RangeDecoder::<M::W, S, _>::for_compressed(&words).unwrap_infallible();
+            decode_check(run, &mut d, &msg, 0, "for_compressed(&Vec)", "C02")
+                && check_exhausted(run, constriction::stream::Decode::<1>::maybe_exhausted(&d) && constriction::stream::Code::decoder_maybe_exhausted::<1>(&d), &msg, &wu)
+        }
+        6 => {
+            // conversion traits: Vec::from(encoder), IntoDecoder, From<RangeEncoder>
+            let v: Vec<M::W> = Vec::from(enc_twin.clone());
+            if v != words {
+                run.violation("conversion", "C02/vec-from-encoder-differs", format!("Vec::from(encoder) = {:?}, into_compressed = {:?}", words_u128(&v), wu));
+                return;
+            }
+            let mut d = <Enc<M, S> as constriction::stream::IntoDecoder<1>>::into_decoder(enc_twin.clone());
+            let mut d2: RangeDecoder<M::W, S, _> = enc_twin.into();
+            decode_check(run, &mut d, &msg, 0, "IntoDecoder::into_decoder", "C02") && decode_check(run, &mut d2, &msg, 0, "RangeDecoder::from(encoder)", "C02") && check_exhausted(run, d.maybe_exhausted() && d2.maybe_exhausted(), &msg, &wu)
         }
         _ => match enc_twin.into_decoder() {
             Ok(mut d) => decode_check(run, &mut d, &msg, 0, "RangeEncoder::into_decoder()", "C02") && check_exhausted(run, d.maybe_exhausted(), &msg, &wu),
